@@ -174,9 +174,17 @@ func c19CodesFact(repo string) (string, any, error) {
 				}
 				continue
 			}
+			// a file that holds nothing but what the recognisers above consumed (the helper of a lookup and its
+			// default text, moved into a file of their own) is covered by them: not listed, nothing left to check
+			if p.allClaimed(fn) {
+				continue
+			}
 			// must declare constants/variables only
 			for _, d := range p.files[fn].Decls {
 				if fd, ok := d.(*ast.FuncDecl); ok {
+					if _, done := p.claimed[fd]; done {
+						continue
+					}
 					return "", nil, fmt.Errorf("%s: file %s/%s is not covered by any C19 recogniser and declares function %s", p.pos(fd), dir, fn, funcKey(p, fd))
 				}
 				if g, ok := d.(*ast.GenDecl); ok && g.Tok == token.VAR {
@@ -610,12 +618,9 @@ func (r *lkRun) cond(fr *lkFrame, e ast.Expr) (bool, error) {
 		switch x.Op {
 		case token.LAND, token.LOR, token.EQL, token.NEQ:
 			a, err := r.cond(fr, x.X)
-			if err != nil {
-				return false, err
-			}
-			b, err := r.cond(fr, x.Y) // operands are effect-free: evaluating both is the short-circuit value
-			if err != nil {
-				return false, err
+			b, err2 := r.cond(fr, x.Y) // operands are effect-free: evaluating both is the short-circuit value
+			if err != nil || err2 != nil {
+				break // e.g. a comparison of strings: reported below as a condition outside the language
 			}
 			switch x.Op {
 			case token.LAND:
@@ -870,6 +875,34 @@ func (r *lkRun) stmt(fr *lkFrame, s ast.Stmt) (*lkTerm, error) {
 		return r.block(fr, chosen.Body) // `fallthrough` and `break` are not statements of the language: refused
 	}
 	return nil, r.p.errf(s, "%s: statement `%s` is not in the fragment of the lookup reader", r.fn, firstLine(r.p.src(s)))
+}
+
+// allClaimed: the file declares at least one function, constant or variable, and every one of them was consumed
+// by a recogniser
+func (p *c19pkg) allClaimed(fn string) bool {
+	n := 0
+	for _, d := range p.files[fn].Decls {
+		switch x := d.(type) {
+		case *ast.FuncDecl:
+			if _, ok := p.claimed[x]; !ok {
+				return false
+			}
+			n++
+		case *ast.GenDecl:
+			if x.Tok != token.CONST && x.Tok != token.VAR {
+				continue
+			}
+			if _, ok := p.claimed[x]; !ok {
+				for _, s := range x.Specs {
+					if _, ok := p.claimed[s]; !ok {
+						return false
+					}
+				}
+			}
+			n++
+		}
+	}
+	return n > 0
 }
 
 // constSpec finds the ValueSpec that declares a package-level constant
